@@ -145,3 +145,13 @@ Definition forms_of (tab : list (N * list form)) (opc : N) : list form :=
 Definition build_agree (rf : regfile) (ss : suffix_sets) (tab : list (N * list form)) (c : build_case) : bool :=
   let '(opc, sfx, ops, obs) := c in
   option_eqb instr_eqb_io (build rf ss (forms_of tab opc) sfx ops) obs.
+
+(* the property evaluated on the implementation's outcome: accepted iff some form of the opcode
+   matches (suffix class, arity, operand types), and then the instruction is that form's *)
+Definition build_impl_ok (rf : regfile) (ss : suffix_sets) (tab : list (N * list form)) (c : build_case) : bool :=
+  let '(opc, sfx, ops, obs) := c in
+  let fs := forms_of tab opc in
+  match obs with
+  | Some i => existsb (fun f => form_match rf ss f sfx ops && instr_eqb_io (form_build f sfx ops) i) fs
+  | None => negb (existsb (fun f => form_match rf ss f sfx ops) fs)
+  end.
